@@ -50,7 +50,7 @@ func init() {
 			"a request that was presented before under a held key and refused (too early / too late) is not required to be accepted later; it is still subject to at-most-once and to the 31s rule",
 			"no stall faults: all presentations of one group happen at one simulated instant",
 		},
-		ExpectProbes: []string{"c03.held-connection", "c03.accept", "c03.replay-rejected", "c03.replay-presented{gap=60-61s,ts-valid}", "c03.concurrent-group", "c03.concurrent-exactly-one",
+		ExpectProbes: []string{"c03.pool-direct", "c03.pool-replay-refused", "c03.held-connection", "c03.accept", "c03.replay-rejected", "c03.replay-presented{gap=60-61s,ts-valid}", "c03.concurrent-group", "c03.concurrent-exactly-one",
 			"c03.boundary{|d|=30s,accepted}", "c03.boundary{|d|=31s,rejected}", "c03.band-unjudged", "c03.fresh-after-same-salt-junk", "c03.err.repeated-salt", "c03.err.bad-timestamp",
 			"c03.pool-pruned-before-replay"},
 	})
@@ -507,6 +507,10 @@ func (h *harness) noteReplay(r *request) {
 
 // Run is one simulated run.
 func Run(s *simrt.Sim) {
+	if s.GenChance(20) {
+		runPool(s)
+		return
+	}
 	w := simnet.W(s)
 	w.SegP = util.Pick(s, []int{0, 0, 128, 256})
 	s.PSwitch = util.Pick(s, []int{8, 64, 160, 255})
